@@ -140,6 +140,8 @@ class Sched(object):
         self.torn_down = False
         self.spin = {}
         self.nprogress = 0
+        self.held = {}
+        self.edges = set()
 
     # ------------------------------------------------------------------ naming
     def name_of(self, obj, kind="o"):
@@ -419,6 +421,61 @@ def _cur():
     return s
 
 
+from concurrent.futures import Executor as _Executor
+
+
+def _lock_tag():
+    """Where was this lock created?  (file relative to the library, function name, owning executor/future object id or None).
+    Used only to attribute a lock instance to a lock CLASS for the lock-order correspondence (C04)."""
+    s = ACTIVE
+    impl = getattr(s, "impl_dir", None) if s is not None else None
+    try:
+        f = sys._getframe(2)
+    except ValueError:
+        return None
+    site = None
+    owner = None
+    depth = 0
+    while f is not None and depth < 25:
+        fn = f.f_code.co_filename
+        if impl and fn.startswith(impl):
+            if site is None:
+                slf0 = f.f_locals.get("self")
+                site = (fn[len(impl):], f.f_code.co_name, type(slf0).__name__ if slf0 is not None else "")
+            slf = f.f_locals.get("self")
+            if owner is None and slf is not None and isinstance(slf, _Executor):
+                owner = id(slf)
+        f = f.f_back
+        depth += 1
+    if site is None:
+        return None
+    return (site[0], site[1], site[2], owner)
+
+
+def _note_acquire(s, lock):
+    me = s.cur
+    if me is None:
+        return
+    held = s.held.setdefault(me.tid, [])
+    if lock.tag is not None:
+        for h in held:
+            if h is not lock and h.tag is not None:
+                s.edges.add((h.tag, lock.tag))
+    held.append(lock)
+
+
+def _note_release(s, lock):
+    me = s.cur
+    if me is None:
+        return
+    held = s.held.get(me.tid)
+    if held and lock in held:
+        for i in range(len(held) - 1, -1, -1):
+            if held[i] is lock:
+                del held[i]
+                break
+
+
 class CLock(object):
     """Non-re-entrant lock."""
     _kind = "L"
@@ -428,8 +485,9 @@ class CLock(object):
         self.owner = None
         s = ACTIVE
         self._s = s
+        self.tag = _lock_tag() if self.preempt else None
         if self.preempt and s is not None and s.cur is not None:
-            s.ev("locknew", s.name_of(self, "L"))
+            s.ev("locknew", s.name_of(self, "L"), self.tag[2] if self.tag else "")
 
     def acquire(self, blocking=True, timeout=-1):
         s = self._s
@@ -444,6 +502,7 @@ class CLock(object):
             self.owner = me
             if self.preempt:
                 s.ev("acq", s.name_of(self, "L"))
+                _note_acquire(s, self)
             return True
         if not blocking:
             return False
@@ -454,6 +513,7 @@ class CLock(object):
         if ok:
             self.owner = me
             s.ev("acq", s.name_of(self, "L"))
+            _note_acquire(s, self)
         return ok
 
     def release(self):
@@ -466,6 +526,7 @@ class CLock(object):
         self.owner = None
         if self.preempt:
             s.ev("rel", s.name_of(self, "L"))
+            _note_release(s, self)
 
     def locked(self):
         return self.owner is not None
@@ -485,8 +546,9 @@ class CRLock(object):
         self.owner = None
         self.count = 0
         self._s = ACTIVE
+        self.tag = _lock_tag() if self.preempt else None
         if self.preempt and ACTIVE is not None and ACTIVE.cur is not None:
-            ACTIVE.ev("locknew", ACTIVE.name_of(self, "R"))
+            ACTIVE.ev("locknew", ACTIVE.name_of(self, "R"), self.tag[2] if self.tag else "")
 
     def acquire(self, blocking=True, timeout=-1):
         s = self._s
@@ -505,6 +567,7 @@ class CRLock(object):
             self.count = 1
             if self.preempt:
                 s.ev("acq", s.name_of(self, "R"))
+                _note_acquire(s, self)
             return True
         if not blocking:
             return False
@@ -516,6 +579,7 @@ class CRLock(object):
             self.owner = me
             self.count = 1
             s.ev("acq", s.name_of(self, "R"))
+            _note_acquire(s, self)
         return ok
 
     def release(self):
@@ -531,6 +595,7 @@ class CRLock(object):
             self.owner = None
             if self.preempt:
                 s.ev("rel", s.name_of(self, "R"))
+                _note_release(s, self)
 
     def __enter__(self):
         self.acquire()
